@@ -172,6 +172,28 @@ pub fn run_c11_case(case: &MergeCase, c: &mut Counters, work: &std::path::Path) 
         return (None, false, s.ops);
     }
     let Op::Merge { h, left, right } = &case.merge else { return (None, false, s.ops) };
+    // interaction: an earlier merge INTO THIS VERY left graph that is rightly rejected (a right graph made of a bare
+    // root and one isolated vertex: nothing to add, Err for the vertex that cannot be reached). If it really changed
+    // nothing that can be observed or stored (hook), the merge under test must not be able to tell that it happened.
+    if mix(&[case.seed, 0xF412]) % 4 == 0 && case.cap >= 2 {
+        let before = s.g.snapshot();
+        let (n, cap) = (case.n, case.cap);
+        let root = (mix(&[case.seed, 0xF413]) % cap as u64) as usize;
+        let other = (root + 1 + (mix(&[case.seed, 0xF414]) % (cap as u64 - 1)) as usize) % cap;
+        let l0 = *left;
+        let g = &mut s.g;
+        let rejected = crate::rec::guarded(|| {
+            let mut f = new_graph(n, cap);
+            f.add(root);
+            f.add(other);
+            g.merge(f.as_ref(), l0, root).is_err()
+        });
+        if rejected != Ok(true) || s.g.snapshot() != before || !graph_is(s.g.as_ref(), &s.m) {
+            c.inc("c11.earlier-merge-into-the-left-graph-not-rejected-or-left-a-trace(skipped, C12's business)");
+            return (None, false, s.ops);
+        }
+        c.inc("c11.cases-after-a-rejected-merge-into-the-same-left-graph");
+    }
     let h_cap = crate::ops::h_capacity(case.cap, h);
     if h_cap > case.cap {
         c.inc("c11.right-graphs-with-a-larger-capacity-and-ids-beyond-the-left-one's");
@@ -733,6 +755,10 @@ pub fn run_c12_case(n: usize, cap: usize, g_ops: &[Op], h: &[Op], left: usize, r
         c.inc("c12.case-outside-quantifier");
         return (None, false);
     }
+    let pre_reject = (g_ops.len() + h.len() * 5 + left + right * 3) % 4 == 0;
+    if pre_reject {
+        c.inc("c12.cases-after-a-rejected-merge-into-the-same-left-graph");
+    }
     let r = crate::rec::guarded(|| {
         let mut g = new_graph(n, cap);
         let mut hg = new_graph(n, cap);
@@ -771,6 +797,19 @@ pub fn run_c12_case(n: usize, cap: usize, g_ops: &[Op], h: &[Op], left: usize, r
         };
         if !same(&g, &gm) || !same(&hg, &hm) {
             return (Ok(()), vec![usize::MAX]);
+        }
+        // one case in four: the same left graph has rightly rejected another merge just before (bare root + one
+        // isolated vertex); whatever that call kept for itself must not change what Ok and Err mean now
+        if pre_reject && cap >= 2 {
+            let root = (left * 7 + right * 3 + h.len()) % cap;
+            let other = (root + 1 + (left + h.len()) % (cap - 1)) % cap;
+            let mut f = new_graph(n, cap);
+            f.add(root);
+            f.add(other);
+            let r0 = g.merge(f.as_ref(), left, root);
+            if r0.is_ok() || !same(&g, &gm) {
+                return (Ok(()), vec![usize::MAX]);
+            }
         }
         (g.merge(hg.as_ref(), left, right), hk)
     });
